@@ -57,6 +57,15 @@ Theorem C12_by_key_only_refuted :
   exists c h, by_kind c = false /\ snd (run c init h) <> spec_outs c h.
 Proof. exact by_key_only_refuted. Qed.
 
+(* an update in flight: an observation landing between obtaining the handle and the update being
+   applied does not hide the update from the next observation (unless it deleted the metric) *)
+Theorem C12_inflight_update_then_observed_kept : forall c t pre mid v mid2,
+  present (snd (tfinal c t 0 tinit (pre ++ [Register (fst t) (snd t)] ++ mid))) = true ->
+  quiet t mid2 = true ->
+  exists vs, last (trun c t 0 tinit (((pre ++ [Register (fst t) (snd t)] ++ mid) ++ [Complete (fst t) (snd t) v]) ++ mid2 ++ [obs t])) OUnit
+             = OKept (N.of_nat (length (v :: vs))) (view (fst t) (v :: vs)).
+Proof. exact inflight_update_then_observed_kept. Qed.
+
 (* the same model observed through the Prometheus exporter (whole renders; presence and value only) *)
 Theorem C12_prom_spec_ok_on_model : forall c, by_kind (fst c) = true ->
   ExecProm.spec_ok c (ExecProm.run_case c) = true.
